@@ -129,6 +129,9 @@ def build_harness(race=False):
     ok = True
     for name in sorted(os.listdir(os.path.join(HARNESS, 'cmd'))):
         cmd = ['go', 'build', '-tags', 'verif', '-o', 'bin/' + name, './cmd/' + name]
+        if name == 'implrun' and os.environ.get('GOCOVERDIR'):
+            # coverage survey (lib/coverage.sh): which statements of the library the inputs of a check reach
+            cmd[2:2] = ['-cover', '-coverpkg=github.com/jsightapi/jsight-schema-core/...,./...']
         rc, out = sh(cmd, cwd=HARNESS, env=GOENV, timeout=900)
         outs.append(out)
         ok = ok and rc == 0
